@@ -70,6 +70,7 @@ fn main() {
         "C05" => facets::c05::run(&opts),
         "C06" => facets::c06::run(&opts),
         "C09" => facets::c09::run(&opts),
+        "C16" => facets::c16::run(&opts),
         other => {
             eprintln!("unknown facet {}", other);
             std::process::exit(2)
